@@ -37,6 +37,7 @@ type Case struct {
 	Delay    time.Duration
 	Seed     uint64
 	Mount    string // "", ok, refuse (remote destination only)
+	Depth    int    // ExtendedCopy* only (0: unlimited)
 	Profile  *regmodel.Profile
 }
 
@@ -328,6 +329,12 @@ func (c *Case) Run(ctx context.Context, e *Env) (ocispec.Descriptor, error) {
 	switch c.API {
 	case "CopyGraph":
 		return g.Nodes[c.Root].Desc, oras.CopyGraph(ctx, e.WS, e.WD, g.Nodes[c.Root].Desc, gopts)
+	case "ExtendedCopyGraph":
+		eopts := oras.ExtendedCopyGraphOptions{CopyGraphOptions: gopts, Depth: c.Depth}
+		return g.Nodes[c.Root].Desc, oras.ExtendedCopyGraph(ctx, e.WS, e.WD, g.Nodes[c.Root].Desc, eopts)
+	case "ExtendedCopy":
+		eopts := oras.ExtendedCopyOptions{ExtendedCopyGraphOptions: oras.ExtendedCopyGraphOptions{CopyGraphOptions: gopts, Depth: c.Depth}}
+		return oras.ExtendedCopy(ctx, e.WS, c.SrcRef, e.WD, c.DstRef, eopts)
 	default:
 		opts := oras.CopyOptions{CopyGraphOptions: gopts}
 		switch c.MapRoot {
@@ -464,4 +471,134 @@ func (c *Case) resolveDst(ctx context.Context, e *Env) (ocispec.Descriptor, erro
 		out = ocispec.Descriptor{MediaType: m.MediaType, Digest: d, Size: int64(len(m.Bytes))}
 	})
 	return out, err
+}
+
+// Ancestors returns every node that reaches n through successor links
+// (n's upward closure), n included.
+func Ancestors(g *gen.DAG, n int) []int {
+	seen := map[int]bool{n: true}
+	stack := []int{n}
+	for len(stack) > 0 {
+		cur := stack[len(stack)-1]
+		stack = stack[:len(stack)-1]
+		for _, p := range g.Preds(cur) {
+			if !seen[p] {
+				seen[p] = true
+				stack = append(stack, p)
+			}
+		}
+	}
+	out := make([]int, 0, len(seen))
+	for k := range seen {
+		out = append(out, k)
+	}
+	sort.Ints(out)
+	return out
+}
+
+// ExpectedSet is the set of nodes a successful fault-free call must leave in
+// the destination: reach(expected root) for Copy/CopyGraph, the union of the
+// graphs of every ancestor for unlimited-depth ExtendedCopy*.
+func (c *Case) ExpectedSet() []int {
+	switch c.API {
+	case "ExtendedCopyGraph", "ExtendedCopy":
+		return c.G.Reach(Ancestors(c.G, c.Root)...)
+	}
+	if c.Expect < 0 {
+		return nil
+	}
+	return c.G.Reach(c.Expect)
+}
+
+// MissingFrom lists the nodes of want that are absent or differ in st.
+func MissingFrom(ctx context.Context, st content.ReadOnlyStorage, g *gen.DAG, want []int) []int {
+	var out []int
+	for _, n := range want {
+		ok, err := st.Exists(ctx, g.Nodes[n].Desc)
+		if err != nil || !ok || !SameBytes(ctx, st, g, n) {
+			out = append(out, n)
+		}
+	}
+	return out
+}
+
+// Outcome is the result of a supervised call.
+type Outcome struct {
+	Returned ocispec.Descriptor
+	Err      error
+	Hung     bool     // no return, no progress possible: every library goroutine parked, no storage operation in flight
+	Stuck    bool     // watchdog fired without the logical proof of a hang (inconclusive)
+	Dump     []string // goroutine stacks at the time of the verdict
+	Leaked   []string // library goroutines still alive after the call returned
+}
+
+// RunSupervised runs the call in a goroutine under a logical hang monitor:
+// the call is declared hung when it has not returned, the wrappers' progress
+// counter has not moved and no storage operation is in flight across
+// `samples` consecutive samples, and every goroutine with a library frame is
+// parked on a channel / select / semaphore. A generous wall-clock watchdog
+// alone yields Stuck (inconclusive).
+func (c *Case) RunSupervised(ctx context.Context, e *Env, watchdog time.Duration) Outcome {
+	type ret struct {
+		d   ocispec.Descriptor
+		err error
+	}
+	done := make(chan ret, 1)
+	go func() {
+		d, err := c.Run(ctx, e)
+		done <- ret{d, err}
+	}()
+	var out Outcome
+	deadline := time.Now().Add(watchdog)
+	lastOps := int64(-1)
+	still := 0
+	tick := time.NewTicker(25 * time.Millisecond)
+	defer tick.Stop()
+	for {
+		select {
+		case r := <-done:
+			out.Returned, out.Err = r.d, r.err
+			// goroutines of the call must be gone shortly after it returned
+			for i := 0; i < 200; i++ {
+				out.Leaked = OrasGoroutines()
+				if len(out.Leaked) == 0 {
+					break
+				}
+				time.Sleep(5 * time.Millisecond)
+			}
+			return out
+		case <-tick.C:
+			ops := e.Mon.Ops()
+			src, dst := e.Mon.Inflight()
+			if ops == lastOps && src == 0 && dst == 0 {
+				still++
+			} else {
+				still = 0
+			}
+			lastOps = ops
+			if still >= 80 { // 2 s without any boundary event and nothing in flight
+				stacks := OrasGoroutines()
+				if AllParked(stacks) {
+					// confirm: still parked and still no progress a little later
+					time.Sleep(300 * time.Millisecond)
+					stacks2 := OrasGoroutines()
+					select {
+					case r := <-done:
+						out.Returned, out.Err = r.d, r.err
+						return out
+					default:
+					}
+					if e.Mon.Ops() == ops && AllParked(stacks2) {
+						out.Hung, out.Dump = true, stacks2
+						return out
+					}
+				}
+				still = 0
+			}
+			if time.Now().After(deadline) {
+				out.Stuck, out.Dump = true, OrasGoroutines()
+				return out
+			}
+		}
+	}
 }
